@@ -118,6 +118,50 @@ theorem processMessage_reason_eval (env : Env) (sr : Msg → Bool) (m : Msg) (c 
   rw [this]
   rfl
 
+/-! ### whatever happens to the Logout, the connection is dropped -/
+
+/-- `send_msg` never touches the inbound counter -/
+def RIn (c c' : Conn) (_ : List Effect) : Prop := c'.sess.nextIn = c.sess.nextIn
+
+instance : Compositional RIn where
+  refl := fun _ => rfl
+  trans := by
+    intro c c1 c2 e1 e2 h1 h2
+    exact Eq.trans h2 h1
+
+theorem RIn.modify {f : Conn → Conn} (h : ∀ c, (f c).sess.nextIn = c.sess.nextIn) : M.Rel RIn (M.modify f) := ⟨h⟩
+theorem RIn.emit (e : Effect) : M.Rel RIn (M.emit e) := ⟨fun _ => rfl⟩
+
+section
+attribute [local irreducible] M.bind' M.pure' M.throw M.tryCatch M.get M.modify M.emit M.liftE
+  M.assert M.int
+theorem sendMsg_RIn (env : Env) (m : Msg) : M.Rel RIn (sendMsg env m) := by
+  unfold sendMsg sendGate sendCore encodeSeq stateSet
+  rel_tac [RIn.modify, RIn.emit]
+end
+
+/-- a defect with a reason, from ANY connected state, whether or not the Logout can be sent (since the fix
+of `disconnect()`: an unsendable Logout is logged and the disconnect completes): the outcome is
+`disconnect`'s tail applied to whatever `send_msg` left behind -/
+theorem processMessage_reason_outcome (env : Env) (sr : Msg → Bool) (m : Msg) (c : Conn) (text : String)
+    (hi : integrityOf c m = .ok (.reason text)) (hc : isDisc c.state = false) :
+    ∃ c1 e1, (processMessage env sr m c).res = .ok () ∧
+      (processMessage env sr m c).conn = (discTail c1 st_DISCONNECTED_BROKEN_CONN).1 ∧
+      (processMessage env sr m c).eff = e1 ++ (discTail c1 st_DISCONNECTED_BROKEN_CONN).2 ∧
+      c1.sess.nextIn = c.sess.nextIn ∧ e1.all plainUp = true := by
+  rw [processMessage_reason env sr m c text hi, disconnect_logout_eval env _ text c hc isDisc_broken]
+  have hp := (sendMsg_plain env (logoutMsg text)).out (discReset c)
+  have hin := (sendMsg_RIn env (logoutMsg text)).out (discReset c)
+  rcases hsend : sendMsg env (logoutMsg text) (discReset c) with ⟨r, c1, e1⟩
+  rw [hsend] at hp hin
+  have hin : c1.sess.nextIn = c.sess.nextIn := hin
+  have hpl : e1.all plainUp = true := hp.2
+  cases r with
+  | error ex =>
+    refine ⟨c1, e1 ++ [.caught ex], rfl, rfl, rfl, hin, ?_⟩
+    rw [List.all_append, hpl]; rfl
+  | ok u => exact ⟨c1, e1, rfl, rfl, rfl, hin, hpl⟩
+
 /-! ### the defect classes, as verdicts of `_validate_integrity` -/
 
 theorem integrity_begin_string (c : Conn) (m : Msg) (bs : String) (h8 : m.get? tBeginString = some bs)
